@@ -954,7 +954,7 @@ def default_rules(F, R, nm, d, m, cs):
 
 HIJ_ITEMS = ("ALIGN", "MIN_SIZE", "SIZE", "size", "ptr_from_bytes", "ptr_to_bytes", "from_bytes_unchecked", "from_mut_bytes_unchecked", "as_bytes",
              "as_mut_bytes", "new_in_place", "assign_in_place", "validate_unchecked", "validate_ptr", "validate", "from_bytes", "from_mut_bytes",
-             "default_in_place", "default_emplacer", "emplace", "emplace_unchecked")
+             "default_in_place", "default_emplacer", "emplace", "emplace_unchecked", "into", "from")
 
 
 def hygiene_rules(F, R):
